@@ -63,7 +63,7 @@ class C11(BindSpec):
                 aok, bok = a["sonic"] == "ok", b["sonic"] == "ok"
                 if aok != bok:
                     out.append(("error-or-not-differs:%s/%s" % (envs[i], envs[j]), "cfg=%d %s=%s %s=%s val=%s" % (cfg, envs[i], a["sonic"], envs[j], b["sonic"], (a if aok else b).get("val", "")[:300])))
-                elif aok and mask_floats(a.get("val")) != mask_floats(b.get("val")):    # float bits: C19
+                elif aok and a.get("val") != b.get("val"):
                     out.append(("value-differs:%s/%s" % (envs[i], envs[j]), "cfg=%d %s=%s %s=%s" % (cfg, envs[i], a.get("val", "")[:300], envs[j], b.get("val", "")[:300])))
         return out
 
